@@ -185,3 +185,40 @@ def extract_pda(p):
         ss = json.loads(g.nodes["INITIAL_STACK_HIDDEN"]["label"])
     return PDA([s.value for s in p.states], None if start is None else start.value, ss,
                [s.value for s in p.final_states], trans)
+
+
+# --------------------------------------------------------------- transducers
+
+def ref_fst_from_case(case, scheme="str"):
+    from .refs.fst import FST
+    from .gen import fst as GT
+    q, trans, st, fi = case
+    nm = GT.names(scheme, q)
+    return FST(nm, [nm[i] for i in range(q) if st >> i & 1], [nm[i] for i in range(q) if fi >> i & 1],
+               [(nm[p], GT.IN[a], nm[r], GT.OUTS[o]) for p, a, r, o in trans])
+
+
+def build_fst(case, scheme="str"):
+    from .gen import fst as GT
+    from pyformlang.fst import FST
+    q, trans, st, fi = case
+    nm = GT.names(scheme, q)
+    f = FST()
+    for p, a, r, o in trans:
+        f.add_transition(nm[p], "epsilon" if a == 0 else GT.IN[a], nm[r], list(GT.OUTS[o]))
+    for i in range(q):
+        if st >> i & 1:
+            f.add_start_state(nm[i])
+        if fi >> i & 1:
+            f.add_final_state(nm[i])
+    return f
+
+
+def extract_fst(f):
+    """Library FST -> reference FST through states / start_states / final_states / transitions."""
+    from .refs.fst import FST
+    trans = []
+    for (p, a), outs in f.transitions.items():
+        for (q, o) in outs:
+            trans.append((p, None if a == "epsilon" else a, q, tuple(o)))
+    return FST(f.states, f.start_states, f.final_states, trans)
